@@ -817,6 +817,55 @@ def _weather_clause(ctx, env, rnd, search):
     return lines, groups
 
 
+def _sweep_clause(ctx, env, rnd):
+    """CONFIGURATION SWEEP: every equivalence pair of a short project (1980-1982) with ONE configuration key away from the
+    project's own configuration (pedotransfer functions, ET methods, CO2 methods, mineralisation method, ground-water source,
+    the automation switches singly and in pairs, fertilisation scenario, InitSelection, leaching depth, file-extension override)"""
+    lines, groups, datefree = [], [], set()
+    P = F.base_project(rnd, crops=(("SM", ""), ("SOY", "000")), years=(1980, 1981 if not ctx.thorough else 1982))
+    P.soil = F.gen_soil(rnd, hydraulic=True, total=20)
+    P.draindepth, P.drainpct = "08", "0.5"
+    F.sweep_endit(P)
+    src = os.path.join(env.ex, "weather", "historical", "109_120.csv")
+    ser = F.read_weather_csv(src, 1980, P.end.year)
+    wk = {}
+    for lay in (0, 1, 2):
+        wk[lay] = F.render_weather(env.ex, "sw_w%d" % lay, lay, "X", ser)
+        wk[lay]["WeatherFolder"] = '"sw_w%d"' % lay
+    wke = F.render_weather(env.ex, "sw_we", 0, "X", ser, et0=True)
+    wke["WeatherFolder"] = '"sw_we"'
+    members = {"base": {}, "soil": {"soil": "csv"}, "rot": {"rot": "txt"}, "endit": {"endit": "csv"}, "dfmt": {"datefmt": "DateDEshort"}}
+    for tag, cfgw in (("a", None), ("e", wke)):
+        for m, kw in members.items():
+            nm = "sw%s_%s" % (tag, m)
+            F.write_project(env, nm, P, drop_dates=True, cfg=dict(cfgw) if cfgw else None, **kw)
+            F.sweep_ready(env, nm, P, kw.get("datefmt", "DateENlong"))
+    for lay in (0, 1, 2):
+        F.write_project(env, "sww%d" % lay, P, drop_dates=True, cfg=wk[lay])
+        F.sweep_ready(env, "sww%d" % lay, P)
+    items = [("own configuration", "", False)] + F.sweep_items(ctx.thorough)
+    for name, extra, et0 in items:
+        tag = "e" if et0 else "a"
+        fc = "X" if et0 else "109_120"
+        ix = {}
+        for m in members:
+            lines.append(F.line_for("sw%s_%s" % (tag, m), P, fcode=fc, extra=extra)); ix[m] = len(lines) - 1
+            datefree.add(len(lines) - 1)
+        lines.append(F.line_for("sw%s_base" % tag, P, fcode=fc, extra=extra + " CropParameterFormat=yml")); ix["yml"] = len(lines) - 1
+        datefree.add(len(lines) - 1)
+        for m, what in (("soil", "soil txt vs csv"), ("rot", "rotation csv vs txt"), ("endit", "measurements txt vs csv"),
+                        ("yml", "crop parameters classic vs YAML"), ("dfmt", "dates DateENlong vs DateDEshort")):
+            groups.append(("sweep:%s:%s" % (m, name), ix["base"], ix[m], "%s with %s" % (what, name)))
+        if not et0:
+            w = {}
+            for lay in (0, 1, 2):
+                lines.append(F.line_for("sww%d" % lay, P, fcode="X", extra=extra)); w[lay] = len(lines) - 1
+                datefree.add(len(lines) - 1)
+            for a, b_ in ((0, 1), (0, 2), (1, 2)):
+                groups.append(("sweep:weather-%d-vs-%d:%s" % (a, b_, name), w[a], w[b_], "weather layout %d vs %d with %s" % (a, b_, name)))
+    return lines, groups, datefree
+
+
 def _shipped_pairs(env):
     """format pairs shipped with the examples"""
     shutil.copy(os.path.join(env.ex, "project", "ex3", "endit_ex3_old_header.csv"), os.path.join(env.ex, "project", "ex3", "endit_ex3.csv"))
@@ -908,7 +957,7 @@ def _oracle(ctx, search, env):
     lines, groups = [], []
     env.datefree = set()
     for part in (_crop_clause(ctx, env, rnd, fails, search), _encodings_clause(ctx, env, rnd, search),
-                 _weather_clause(ctx, env, rnd, search), _shipped_pairs(env)):
+                 _weather_clause(ctx, env, rnd, search), _shipped_pairs(env), _sweep_clause(ctx, env, rnd)):
         off = len(lines)
         lines += part[0]
         groups += [(k, a + off, b_ + off, w) for k, a, b_, w in part[1]]
@@ -936,7 +985,10 @@ def _oracle(ctx, search, env):
     for key, a, b_, what in groups:
         ra, rb = runs[a], runs[b_]
         if ra.err and rb.err:
-            if key.startswith("crop-converter-variant"):
+            if key.startswith("sweep:") and "before harvest" in ra.err and "before harvest" in rb.err:
+                fails.append(Fail(key="sweep-run-error:tillage-postponed-under-AutoHarvest:" + key.split(":")[-1],
+                                  what="%s: both runs end with: %s" % (what, ra.err), line=ra.line))
+            elif key.startswith("crop-converter-variant"):
                 both_fail += 1          # a generated variant the model cannot run with: the same failure on both paths
             else:
                 fails.append(Fail(key="both-runs-fail:" + key, what="%s: both runs fail: %s" % (what, ra.err), line=ra.line))
@@ -946,6 +998,22 @@ def _oracle(ctx, search, env):
             continue
         fails.append(Fail(key=key, what="%s: %s" % (what, F.diff_what(ra, rb)), first_difference=F.first_diff(env, "C13", a, b_),
                           replay={"cwd": "scratch copy of /repo/examples with the generated project", "line_a": ra.line, "line_b": rb.line}))
+    # several pairs in one session, in both orders: the sweep lines once more in reverse order
+    sw = sorted({x for key, a, b_, w in groups if key.startswith("sweep:") for x in (a, b_)})
+    if not ctx.thorough:
+        sw = sw[ctx.seed % 3::3]
+    if sw:
+        env.datefree = set(range(len(sw)))
+        rev = F.run_lines(env, "C13r", [lines[x] for x in reversed(sw)], timeout=1200)
+        for pos, x in enumerate(reversed(sw)):
+            if rev[pos].err != runs[x].err and (rev[pos].err is None or runs[x].err is None) or (rev[pos].err is None and rev[pos].files != runs[x].files):
+                fails.append(Fail(key="sweep:session-order:%s" % lines[x].split("poligonID=G")[-1].strip().replace(" ", "_"),
+                                  what="the same line gives other results when the session runs the lines in the reverse order",
+                                  line=lines[x]))
+    sweep_pairs = [g_ for g_ in groups if g_[0].startswith("sweep:")]
+    ctx.extra["configuration_sweep"] = ("%d pairs: every equivalence pair (soil, rotation, measurements, crop parameters, date format, weather layouts pairwise) "
+                                        "under the project's own configuration and under %d settings with one key changed (%s); all sweep lines also in reverse order"
+                                        % (len(sweep_pairs), len(F.sweep_items(ctx.thorough)), ", ".join(i_[0] for i_ in F.sweep_items(ctx.thorough))))
     ctx.extra["paired_runs"] = len(lines)
     ctx.extra["pairs"] = len(groups)
     ctx.extra["pairs_identical"] = nontrivial
